@@ -108,6 +108,27 @@ example :
      | .ok (s, []) => (s.printable, s.showToks.filterMap contentOf == s.flatten.filterMap contentOf,
         s.showText == some (str "CREATE TABLE t (a foo('x', 1))"))
      | _ => (true, false, false)) = (false, true, true) := by decide +kernel
+/-- **Deviation kept visible** (keywords, not content): outside MySQL / Generic (resp. SQLite / Generic, dialects
+with `supports_asc_desc_in_column_definition`) `parse_optional_column_option` consumes `AUTO_INCREMENT`
+(`AUTOINCREMENT`, `ASC`, `DESC`) BEFORE it tests the dialect, and then reports "no option": the
+keyword is accepted and silently dropped — `CREATE TABLE t (a INT AUTOINCREMENT, b INT ASC)` prints
+`CREATE TABLE t (a INT, b INT)` in PostgreSQL (same answers from the real parser, stream `dml`) -/
+theorem option_keyword_swallowed :
+    (match parseStmt (DCfg.ofRow dialect_postgresql) 300 50
+      [kw "CREATE", kw "TABLE", wd "t", lp, wd "a", kw "INT", kw "AUTOINCREMENT", cm, wd "b", kw "INT", kw "ASC", rp] with
+     | .ok (.createTable ct, []) =>
+       (ct.cols.map (fun p => (p.1.opts.length, p.1.dropped.length)),
+        (Stmt.createTable ct).showText == some (str "CREATE TABLE t (a INT, b INT)"))
+     | _ => ([], false)) = ([(0, 1), (0, 1)], true) := by decide +kernel
+
+/-- **Deviation kept visible** (a keyword, not content): `parse_update` consumes `FROM` before it tests the
+dialect; in MySQL (also ANSI, ClickHouse, Databricks, Hive) `UPDATE t SET a = 1 FROM WHERE b` is accepted and
+prints `UPDATE t SET a = 1 WHERE b` -/
+theorem update_from_swallowed :
+    (match parseStmt my 300 50 [kw "UPDATE", wd "t", kw "SET", wd "a", .sym .Eq, num "1", kw "FROM", kw "WHERE", wd "b"] with
+     | .ok (.update u, []) => (u.fromKw.length, u.frm.isFnil, (Stmt.update u).showText == some (str "UPDATE t SET a = 1 WHERE b"))
+     | _ => (0, false, false)) = (1, true, true) := by decide +kernel
+
 end Witnesses
 
 /-- The whole-grammar property (not proved: the statement kinds of the fragment only; decided by the
